@@ -135,6 +135,9 @@ class Recursion(Exception):
     """the decision function re-enters itself on complemented operands without reaching a base case"""
 
 
+_CTX = None
+
+
 class Interp:
     """symbolic evaluation of __contains_simple on one row.  Roles: 'A' = other (candidate subset), 'B' = self."""
 
@@ -265,6 +268,11 @@ class Interp:
             v = self.ev(e.value)
             if isinstance(v, Shape) and e.attr == "jordans":
                 return (Jordan(v.role),)
+            if isinstance(v, Shape) and _CTX is not None:
+                # the single curve of a simple shape read through a field or a private property
+                cs = _CTX.typer.classes_of(_CTX.typer.of(self.fn).typeof(e))
+                if cs and all(c == "JordanCurve" for c in cs):
+                    return Jordan(v.role)
             if isinstance(v, Jordan) and e.attr == "vertices":
                 return tuple(Vertex(v.role, i) for i in range(3))
             raise Undecided(U(e)[:40])
@@ -344,6 +352,8 @@ def r03_1(ctx):
                            "curves on every configuration x orientation pair x consultable fact", floor=40)
     out.exhaustive = True
     fn = simple_decider(ctx)
+    global _CTX
+    _CTX = ctx
     wrong = {}
     n = 0
     for row in rows():
